@@ -14,7 +14,7 @@ P = lambda i, n: ("param", i, n)
 
 def run(ctx, rep):
     prog = ctx.program("default")
-    rep.configs.append("default")
+    rep.configs.append(getattr(ctx, "alias", "default"))
     split_tables(prog, rep)
     area_wiring(prog, rep)
     pairing(prog, rep, "R06.3")
